@@ -103,7 +103,9 @@ class one3d(PseudoNetCDFFile):
         time_date = array(self.__memmap.reshape(
             self.__records, self.__record_items)[:, 1:3])
 
-        lays = where(time_date != time_date[newaxis, 0])[0][0]
+        newstep = where(time_date != time_date[newaxis, 0])[0]
+        # a single time step: every record belongs to it
+        lays = newstep[0] if newstep.size > 0 else self.__records
 
         if self.__records % lays != 0:
             raise ValueError('Incomplete time step: %d records of %d layers'
